@@ -482,3 +482,87 @@ def effect_position_programs():
             text = PRELUDE + 'fn say(t: string) -> unit { string_println(t) }\n' + "fn main() {\n    " + ";\n    ".join(pre + body + tail) + "\n}\n"
             progs.append(text)
     return progs
+
+
+DISCARD_PRELUDE = PRELUDE + """struct K2 { n: int32 }
+impl K2 {
+    fn to_string(self: K2) -> string { let _ = string_println("K2.to_string"); "k2" }
+    fn len(self: K2) -> int32 { let _ = string_println("K2.len"); self.n }
+}
+trait Render { fn to_string(Self) -> string; fn string_len(Self) -> int32; }
+impl Render for P {
+    fn to_string(self: P) -> string { let _ = string_println("P.to_string"); "p" }
+    fn string_len(self: P) -> int32 { let _ = string_println("P.string_len"); self.a }
+}
+fn audit_to_string(t: string, v: int32) -> string { let _ = string_println(t); int32_to_string(v) }
+fn my_string_len(t: string) -> int32 { let _ = string_println(t); string_len(t) }
+fn ref_get__probe(t: string, r: Ref[int32]) -> int32 { let _ = string_println(t); let _ = ref_set(r, ref_get(r) + 1); ref_get(r) }
+fn array_get__probe(t: string) -> int32 { let _ = string_println(t); 1 }
+fn vec_len_probe(t: string) -> int32 { let _ = string_println(t); 2 }
+fn bool_to_string_probe(t: string) -> bool { let _ = string_println(t); true }
+"""
+
+
+def discard_program(rng):
+    """statements whose results are thrown away, in every kind of position: builtins that can fail at run time,
+    pure builtins, and effectful user functions / methods whose names look like runtime helpers.  Dead-code
+    elimination may drop none of the effects and none of the failures."""
+    n = [0]
+
+    def tag():
+        n[0] += 1
+        return '"d%d"' % n[0]
+
+    def idx(lim):
+        return str(rng.choice([0, 1, lim - 1, lim - 1, lim, lim + 4]) if rng.random() < 0.35 else rng.choice(range(lim)))
+
+    def discard():
+        k = rng.random()
+        if k < 0.12:
+            return "array_get(arr, %s)" % idx(3)
+        if k < 0.22:
+            return "string_get(str3, %s)" % idx(3)
+        if k < 0.32:
+            return "vec_get(vec2, %s)" % idx(2)
+        if k < 0.40:
+            return "(10 / %s)" % rng.choice(["zero", "1", "two"])
+        if k < 0.46:
+            return rng.choice(["string_len(str3)", "int32_to_string(two)", "ref_get(cell)", "vec_len(vec2)", "bool_to_string(true)"])
+        if k < 0.54:
+            return "audit_to_string(%s, %d)" % (tag(), rng.randint(0, 9))
+        if k < 0.60:
+            return "my_string_len(%s)" % tag()
+        if k < 0.66:
+            return "ref_get__probe(%s, cell)" % tag()
+        if k < 0.72:
+            return rng.choice(["array_get__probe(%s)", "vec_len_probe(%s)", "bool_to_string_probe(%s)"]) % tag()
+        if k < 0.80:
+            return rng.choice(["k2.to_string()", "k2.len()", "K2::to_string(k2)"])
+        if k < 0.88:
+            return rng.choice(["Render::to_string(pp)", "Render::string_len(pp)"])
+        if k < 0.94:
+            return "pi(%s, %d)" % (tag(), rng.randint(0, 5))
+        return "clo(%d)" % rng.randint(0, 5)
+
+    def stmt(d):
+        k = rng.random()
+        if d > 0 and k < 0.15:
+            return "let _ = if pb(%s, %s) { let _ = %s; 1 } else { let _ = %s; 2 }" % (tag(), rng.choice(["true", "false"]), discard(), discard())
+        if d > 0 and k < 0.27:
+            return "let _ = match %s { 0 => { let _ = %s; 0 }, _ => { let _ = %s; 1 } }" % (rng.choice(["zero", "two"]), discard(), discard())
+        if d > 0 and k < 0.36:
+            n[0] += 1
+            w = "w%d" % n[0]
+            return "let %s = ref(0); while ref_get(%s) < %d { let _ = %s; ref_set(%s, ref_get(%s) + 1) }" % (w, w, rng.choice([0, 1, 2]), discard(), w, w)
+        if k < 0.46:
+            return "let _ = string_println(%s)" % tag()
+        return "let _ = %s" % discard()
+
+    body = [
+        "let arr = [1, 2, 3]", 'let str3 = "abc"', "let vec0: Vec[int32] = vec_new()", "let vec1 = vec_push(vec0, 5)", "let vec2 = vec_push(vec1, 6)",
+        "let zero = pi(\"z\", 0)", "let two = 2", "let cell = ref(0)", "let k2 = K2 { n: 3 }", "let pp = P { a: 4, b: true }",
+        "let clo = |q: int32| { let _ = string_println(\"clo\"); q + 1 }",
+    ]
+    body += [stmt(2) for _ in range(rng.randint(4, 9))]
+    body.append("string_println(int32_to_string(ref_get(cell)))")
+    return DISCARD_PRELUDE + "fn main() {\n    " + ";\n    ".join(body) + "\n}\n"
